@@ -1,6 +1,6 @@
 (* C02 — no double spend or double resolution. *)
 From Coq Require Import ZArith List Bool.
-From Sia Require Import Prim.Result Prim.Tok Policy.Model Ledger.Types Ledger.Mid Ledger.Validate Ledger.Apply Ledger.Proofs Ledger.Spends Ledger.SpendsV1 Ledger.SpendsSF Ledger.Persist Ledger.Marks1 Ledger.Marks2 Ledger.Marks3 Ledger.Marks4 Ledger.Marks5 Ledger.Marks6 Ledger.Marks7 Ledger.Marks8 Ledger.Marks9 Ledger.Marks10 Ledger.Persist1 Ledger.Kinds Ledger.Fresh.
+From Sia Require Import Prim.Result Prim.Tok Policy.Model Ledger.Types Ledger.Mid Ledger.Validate Ledger.Apply Ledger.Proofs Ledger.Spends Ledger.SpendsV1 Ledger.SpendsSF Ledger.Persist Ledger.Marks1 Ledger.Marks2 Ledger.Marks3 Ledger.Marks4 Ledger.Marks5 Ledger.Marks6 Ledger.Marks7 Ledger.Marks8 Ledger.Marks9 Ledger.Marks10 Ledger.Persist1 Ledger.Kinds Ledger.Fresh Ledger.Fresh2.
 Import ListNotations.
 Open Scope Z_scope.
 
@@ -251,3 +251,22 @@ Theorem C02_consumed_leaf_marked_checked : forall H net vt pt se sd s b s' m t0 
   SpentAt (s_leaves s') (Z.to_nat (p_leaf (i2_parent i0))).
 Proof. exact consumed_marked_checked. Qed.
 Print Assumptions C02_consumed_leaf_marked_checked.
+
+(* the same for siafund inputs and for resolved v2 contracts: [fresh_sf b] and [fresh_v2 b] check, for every consumed siafund
+   element (every resolved contract) with an assigned leaf, that the block creates nothing under its ID and that every input
+   (revision, resolution) with the same parent ID presents the same leaf *)
+Theorem C02_consumed_siafund_leaf_marked_checked : forall H net vt pt se sd s b s' m t0 i0,
+  validate_block H net vt pt se sd s b = Ok tt -> apply_block net s b = Ok (s', m) -> b_txns b = [] -> b_expiring b = [] ->
+  consistent (declsB b) = true -> fresh_sf b = true ->
+  In t0 (b_v2txns b) -> In i0 (t2_sfi t0) -> p_leaf (f2_parent i0) <> UNASSIGNED ->
+  SpentAt (s_leaves s') (Z.to_nat (p_leaf (f2_parent i0))).
+Proof. exact consumed_sf_marked_checked. Qed.
+Print Assumptions C02_consumed_siafund_leaf_marked_checked.
+
+Theorem C02_resolved_leaf_marked_checked : forall H net vt pt se sd s b s' m t0 rs0,
+  validate_block H net vt pt se sd s b = Ok tt -> apply_block net s b = Ok (s', m) -> b_txns b = [] -> b_expiring b = [] ->
+  consistent (declsB b) = true -> fresh_v2 b = true ->
+  In t0 (b_v2txns b) -> In rs0 (t2_res t0) -> p_leaf (rs_parent rs0) <> UNASSIGNED ->
+  SpentAt (s_leaves s') (Z.to_nat (p_leaf (rs_parent rs0))).
+Proof. exact resolved_marked_checked. Qed.
+Print Assumptions C02_resolved_leaf_marked_checked.
